@@ -174,7 +174,7 @@ def worker_main(prop, tier, w, nworkers, active, out_path, only=None):
             st["evaluations"] += 1
             if r.skipped:
                 st["skipped"] += 1
-            for e in r.events:
+            for e in set(r.events):
                 st["events"][e] += 1
             h = plan_hash(plan)
             if r.nontrivial:
